@@ -6,11 +6,16 @@ stdout: JSON list, one entry per job:
    ["ok"]                                        compiled
    ["diag", exception class]                     one of JMC's own diagnostics (jmc.compile.exception.EXCEPTIONS —
                                                  the family terminal_commands.py prints as an error report)
-   ["internal", exception class, file, function, lineno, message[:200]]
-                                                 any other exception; (file, function) = innermost frame inside jmc/
+   ["internal", exception class, file, function, lineno, message[:200], expr]
+                                                 any other exception; (file, function) = innermost frame inside jmc/;
+                                                 expr = source text (whitespace removed) of the very sub-expression /
+                                                 statement of that frame that was executing (code.co_positions), e.g.
+                                                 `tokens[3]`: the crash SITE, stable under moving / re-indenting code
    ["timeout"]                                   signal.alarm fired
 """
+import itertools
 import json
+import linecache
 import os
 import signal
 import sys
@@ -25,15 +30,34 @@ def _alarm(signum, frame):
     raise _Timeout()
 
 
+def failing_expr(tb) -> str:
+    """source text of the instruction that was executing in the frame of `tb`, all whitespace removed"""
+    try:
+        code = tb.tb_frame.f_code
+        l0, l1, c0, c1 = next(itertools.islice(code.co_positions(), tb.tb_lasti // 2, None))
+        if None in (l0, l1, c0, c1):
+            return "".join(linecache.getline(code.co_filename, tb.tb_lineno).split())[:160]
+        lines = [linecache.getline(code.co_filename, n).encode("utf-8") for n in range(l0, l1 + 1)]
+        if l0 == l1:
+            lines[0] = lines[0][c0:c1]
+        else:
+            lines[0] = lines[0][c0:]
+            lines[-1] = lines[-1][:c1]
+        return "".join(b"".join(lines).decode("utf-8", "replace").split())[:160]
+    except Exception:  # noqa
+        return "?"
+
+
 def innermost_jmc_frame(tb):
-    """[file, qualified function name, line] of the innermost frame that belongs to jmc"""
+    """[file, qualified function name, line, failing expression] of the innermost frame that belongs to jmc"""
     best = None
     while tb is not None:
         code = tb.tb_frame.f_code
         if "/jmc/" in code.co_filename.replace("\\", "/"):
-            best = [os.path.basename(code.co_filename), getattr(code, "co_qualname", code.co_name), tb.tb_lineno]
+            best = [os.path.basename(code.co_filename), getattr(code, "co_qualname", code.co_name), tb.tb_lineno,
+                    failing_expr(tb)]
         tb = tb.tb_next
-    return best or ["?", "?", 0]
+    return best or ["?", "?", 0, "?"]
 
 
 def main():
@@ -73,7 +97,7 @@ def main():
         except BaseException as e:  # noqa
             signal.alarm(0)
             fr = innermost_jmc_frame(e.__traceback__)
-            out.append(["internal", type(e).__name__, fr[0], fr[1], fr[2], str(e)[:200]])
+            out.append(["internal", type(e).__name__, fr[0], fr[1], fr[2], str(e)[:200], fr[3]])
         finally:
             signal.alarm(0)
     sys.stdout = real_stdout
